@@ -212,6 +212,11 @@ func Run(tier string, seed int64, outDir string) *common.Meta {
 		got, want string
 	}
 	ctxFails := make([][]ctxFailure, len(histories))
+	type walkerFailure struct {
+		at, checker   int
+		before, after string
+	}
+	walkerFails := make([][]walkerFailure, len(histories))
 	fails := make([][]failure, len(histories))
 	stats := make([][3]int, len(histories))
 	fw.Parallel(len(histories), func(hi int) {
@@ -222,6 +227,11 @@ func Run(tier string, seed int64, outDir string) *common.Meta {
 			return
 		}
 		set.Ctx.Require.PkgRenames = true // integrator-side switch: lets the oracle watch the rename table as well
+		walker0 := make([]string, len(set.Checkers))
+		for ci, c := range set.Checkers {
+			walker0[ci] = fw.WalkerState(c)
+		}
+		walkerReported := map[int]bool{}
 		reported := map[int]bool{}
 		ctxReported := false
 		prev := make([]fw.Outcome, len(set.Checkers))
@@ -238,6 +248,11 @@ func Run(tier string, seed int64, outDir string) *common.Meta {
 			for ci, c := range set.Checkers {
 				got := fw.SafeCheck(c, f)
 				stats[hi][0]++
+				// walker protocol state (astwalk flags) must be back to its post-construction value after every file
+				if ws := fw.WalkerState(c); ws != walker0[ci] && !walkerReported[ci] && got.Panic == "" {
+					walkerReported[ci] = true
+					walkerFails[hi] = append(walkerFails[hi], walkerFailure{at, ci, walker0[ci], ws})
+				}
 				if len(got.Ws) > 0 {
 					stats[hi][1]++
 				}
@@ -264,6 +279,15 @@ func Run(tier string, seed int64, outDir string) *common.Meta {
 	meta.Evaluations = visits
 	meta.Distinct = nonEmpty
 
+	for hi := range walkerFails {
+		for _, wf := range walkerFails[hi] {
+			f := histories[hi][wf.at]
+			meta.Fail("C03/"+infos[wf.checker].Name+"/walker-state-not-restored",
+				fmt.Sprintf("%s: after Check(%s) the astwalk protocol state differs from its state after construction (it leaks into the next file)", infos[wf.checker].Name, f.ID()),
+				map[string]interface{}{"checker": infos[wf.checker].Name, "file": f.Path, "source": string(f.Src), "state_after_construction": wf.before, "state_after_check": wf.after,
+					"replay": "NewChecker(" + infos[wf.checker].Name + "); Check(file); inspect the walker's / WalkHandler's fields"})
+		}
+	}
 	for hi := range ctxFails {
 		for _, cf := range ctxFails[hi] {
 			h := histories[hi]
@@ -345,6 +369,9 @@ func Run(tier string, seed int64, outDir string) *common.Meta {
 
 	// CLI: permuted and split package arguments
 	cliStream(meta, tier, seed, s1)
+
+	// go/analysis front-end: histories of passes (runs last: the analyzer rewrites the registered parameter cells)
+	analyzerStream(meta, tier, seed, fset, s1, infos, fresh)
 
 	meta.Rule = "histories = random sequences of (package, file) visits over S1 (every example package of /repo/checkers/testdata) + S2 (corpus/framework), " +
 		"short (2..12 visits, new checker set each) and long walks, plus the CLI's own order over the whole corpus; every visit runs all registered checkers on ONE long-lived set " +
